@@ -183,8 +183,8 @@ Definition rd32 (l : bytes) : option N :=
   | _ => None
   end.
 (* zvariant/src/dbus/de.rs deserialize_str with signature "s" at position 0: u32 length, that many
-   bytes (must exist, must not contain NUL), then the position is moved past one more byte which is
-   not looked at.  (UTF-8 validity is not modelled: every result is next fed to the bus-name
+   bytes (must exist, must not contain NUL), then one more byte which must exist and be NUL
+   (fix: e43e6421).  (UTF-8 validity is not modelled: every result is next fed to the bus-name
    validator, which rejects any non-ASCII byte.) *)
 Definition read_str0 (data : bytes) : option bytes :=
   match rd32 data with
@@ -193,7 +193,11 @@ Definition read_str0 (data : bytes) : option bytes :=
       let rest := skipn 4 data in
       if (len rest <? n)%N then None
       else let s := takeN n rest in
-           if existsb (fun c => beq c x00) s then None else Some s
+           if existsb (fun c => beq c x00) s then None
+           else match dropN n rest with
+                | t :: _ => if beq t x00 then Some s else None
+                | [] => None
+                end
   end.
 
 (* what `msg.body().deserialize_unchecked::<BusName>()` sees before validation.  A body that starts
